@@ -248,8 +248,19 @@ def execute(case, tape):
         return "unsub" in seq[:-1]
 
     def self_hosted(x, item):
-        return any(op[0] in ("reg_comp", "unreg_comp") and op[1] == x and op[2] == item
-                   for op in case["ops"])
+        """x itself un-registered the computation AFTER the subscription that is still active
+        (its own un-registration is what cancels the subscription, see KF-C20-1)."""
+        subs = [i for i, op in enumerate(case["ops"])
+                if op[0] == "sub" and op[1] == x and op[2] == "computation" and op[3] == item]
+        if not subs:
+            return False
+        unsubs = [i for i, op in enumerate(case["ops"])
+                  if op[0] == "unsub" and op[1] == x and op[2] == "computation" and op[3] == item]
+        # first subscription of the still-active subscription period
+        start = min(i for i in subs if not any(i < u for u in unsubs)) if any(
+            not any(i < u for u in unsubs) for i in subs) else subs[-1]
+        return any(op[0] == "unreg_comp" and op[1] == x and op[2] == item
+                   for op in case["ops"][start + 1:])
     if problems:
         kind, detail, x, item = problems[0]
         out["violations"].append(common.violation(
